@@ -8,12 +8,13 @@ Record Num (T : Type) := mkNum {
   add : T -> T -> T; sub : T -> T -> T; mul : T -> T -> T; div : T -> T -> T;
   opp : T -> T;
   ofQ : Q -> T;
-  nexp : T -> T; nln : T -> T; nsqrt : T -> T }.
+  nexp : T -> T; nln : T -> T; nsqrt : T -> T;
+  nmax : T -> T -> T }.
 
 Arguments zero {T} _. Arguments one {T} _.
 Arguments add {T} _ _ _. Arguments sub {T} _ _ _. Arguments mul {T} _ _ _.
 Arguments div {T} _ _ _. Arguments opp {T} _ _. Arguments ofQ {T} _ _.
-Arguments nexp {T} _ _. Arguments nln {T} _ _. Arguments nsqrt {T} _ _.
+Arguments nexp {T} _ _. Arguments nln {T} _ _. Arguments nsqrt {T} _ _. Arguments nmax {T} _ _ _.
 
 Definition ofZ {T} (N : Num T) (z : Z) : T := ofQ N (inject_Z z).
 Definition ofNat {T} (N : Num T) (n : nat) : T := ofQ N (inject_Z (Z.of_nat n)).
